@@ -472,6 +472,23 @@ class MethodCtx:
     # -- assignment -------------------------------------------------------
     def assign(self, target, value, rest, env, mode, node):
         env = env.copy()
+        # q, r = divmod(a, b)   (integers; like `//` and `%`, division by zero is not modelled as raising)
+        if isinstance(target, ast.Tuple) and len(target.elts) == 2 and all(isinstance(x, ast.Name) for x in target.elts) \
+                and isinstance(value, ast.Call) and isinstance(value.func, ast.Name) and value.func.id == "divmod" \
+                and len(value.args) == 2 and not value.keywords:
+            a, at = self.expr(value.args[0], env)
+            b, bt = self.expr(value.args[1], env)
+            if at != "Z" or bt != "Z":
+                _u(node, "divmod of non-integers")
+            q, r = target.elts[0].id, target.elts[1].id
+            if "self" in (q, r) or q == r:
+                _u(node, "divmod targets")
+            ta, tb = self.tr.gensym("dm"), self.tr.gensym("dm")
+            for nm in (q, r):
+                env.locals[nm] = "Z"
+                env.narrow.pop(nm, None)
+            return (f"let {ta} := {a} in\nlet {tb} := {b} in\nlet {q} := ({ta} / {tb}) in\nlet {r} := ({ta} mod {tb}) in\n"
+                    + self.block(rest, env, mode))
         if isinstance(target, ast.Name):
             txt, t = self.expr(value, env)
             if t == "none":
